@@ -802,6 +802,7 @@ def update_file(remote, local, verbose=False):
 
     patches_to_apply = []    # type: List[str]
     patch_hashes = {}        # type: Dict[str, str]
+    remote_hash = None       # type: Optional[str]
 
     # pylint: disable=import-outside-toplevel
     from urllib.request import urlopen
@@ -870,6 +871,13 @@ def update_file(remote, local, verbose=False):
 
             if verbose:
                 print("update_file: field %r ignored" % field)
+
+    if remote_hash is None:
+        # Without the hash of the current file the result of patching cannot
+        # be verified: the index is unusable.
+        if verbose:
+            print("update_file: patch index lacks the %s-Current field" % prefix)
+        return download_file(remote, local)
 
     if not patches_to_apply:
         if verbose:
